@@ -56,7 +56,9 @@ func VerifNewUDP(priv *ecdsa.PrivateKey, c VerifConn) (*Table, *VerifUDP) {
 }
 
 // HandlePacket is what readLoop calls for every datagram.
-func (u *VerifUDP) HandlePacket(from *net.UDPAddr, buf []byte) error { return u.t.handlePacket(from, buf) }
+func (u *VerifUDP) HandlePacket(from *net.UDPAddr, buf []byte) error {
+	return u.t.handlePacket(from, buf)
+}
 
 // KnownNode tells whether the node database holds a bond with id.
 func (u *VerifUDP) KnownNode(id NodeID) bool { return u.t.db.node(id) != nil }
